@@ -173,10 +173,21 @@ func (dr *DatabaseRecovery) shouldRetry(err error) bool {
 
 // calculateDelay calculates the delay for exponential backoff
 func (dr *DatabaseRecovery) calculateDelay(attempt int) time.Duration {
-	delay := float64(dr.retryConfig.BaseDelay) * math.Pow(dr.retryConfig.BackoffFactor, float64(attempt-1))
+	base := float64(dr.retryConfig.BaseDelay)
+	maxDelay := float64(dr.retryConfig.MaxDelay)
+	if base <= 0 || maxDelay <= 0 {
+		return 0
+	}
 
-	if delay > float64(dr.retryConfig.MaxDelay) {
-		delay = float64(dr.retryConfig.MaxDelay)
+	// A factor below 1 (or NaN) would make the waits shrink or change sign: wait the base delay each time
+	factor := dr.retryConfig.BackoffFactor
+	if !(factor >= 1) {
+		factor = 1
+	}
+
+	delay := base * math.Pow(factor, float64(attempt-1))
+	if delay > maxDelay {
+		delay = maxDelay
 	}
 
 	return time.Duration(delay)
